@@ -498,7 +498,13 @@ def diff(ctx, lines, what, classes=None, nontrivial=None, tags=("verif",), race=
             r = run_lines(h, [lines[i] for i in hung[4:]], env2, cpus, 1, 3000, gomaxprocs, impl_prefix)
             for i, o in zip(hung[4:], r[-len(hung[4:]):]):
                 impl[i] = o
+    nv0 = len(ctx.violations)
     ctx.compare(lines, impl, mod, what, norm=norm)
+    if shards == 1 and impl_shards == 1 and len(lines) <= 5000:
+        # call-sequence mode (one process): a finding is replayed with the whole sequence
+        for (_, obj) in ctx.violations[nv0:]:
+            if isinstance(obj, dict):
+                obj["lines"] = lines
     for i, l in enumerate(lines):
         k = keyfn(l) if keyfn else l
         nt = nontrivial[i] if nontrivial is not None else True
@@ -513,6 +519,17 @@ def diff(ctx, lines, what, classes=None, nontrivial=None, tags=("verif",), race=
 def std_replay(ctx, path, tags=("verif",)):
     obj = json.load(open(path))
     case = obj["replay"]["case"]
+    hist = obj["replay"].get("lines")
+    if hist and not obj["replay"].get("conc"):
+        # history-dependent finding: replay the whole call sequence in one process
+        impl = run_lines(ctx.harness(tags=tags), hist, shards=1)
+        mod = run_lines(ctx.model(), hist, env=model_env(), shards=1)
+        for l, a, b in zip(hist, impl, mod):
+            if a != b:
+                print("case :", l[:400]); print("impl :", a[:400]); print("model:", b[:400])
+        ctx.compare(hist, impl, mod, "replay (call sequence)")
+        ctx.count(case)
+        return
     impl = run_lines(ctx.harness(tags=tags), [case], shards=1)
     mod = run_lines(ctx.model(), [case], env=model_env(), shards=1)
     print("case :", case[:2000])
